@@ -33,13 +33,32 @@ type CoreOpts struct {
 	Extra       []string // extra --flag=value
 }
 
+// FreePort picks a TCP port for a core instance. Several coresim processes run side by side and the core
+// only binds its ports some time after they were chosen, so a port is reserved among them with an exclusive
+// lock file before it is returned (stale reservations are dropped after ten minutes).
 func FreePort() int {
-	ln, err := net.Listen("tcp", "127.0.0.1:0")
-	if err != nil {
-		panic(err)
+	dir := filepath.Join(os.TempDir(), "verif-coresim-ports")
+	_ = os.MkdirAll(dir, 0o777)
+	start := 20000 + (os.Getpid()*7919+int(time.Now().UnixNano()%9973))%20000
+	for i := 0; i < 4000; i++ {
+		port := 20000 + (start-20000+i*17)%20000
+		lock := filepath.Join(dir, strconv.Itoa(port))
+		if fi, err := os.Stat(lock); err == nil && time.Since(fi.ModTime()) > 10*time.Minute {
+			_ = os.Remove(lock)
+		}
+		f, err := os.OpenFile(lock, os.O_CREATE|os.O_EXCL|os.O_WRONLY, 0o666)
+		if err != nil {
+			continue
+		}
+		f.Close()
+		ln, err := net.Listen("tcp", ":"+strconv.Itoa(port))
+		if err != nil {
+			continue
+		}
+		ln.Close()
+		return port
 	}
-	defer ln.Close()
-	return ln.Addr().(*net.TCPAddr).Port
+	panic("no free port")
 }
 
 func (o *CoreOpts) Args() []string {
